@@ -446,7 +446,7 @@ def run(ctx):
     ctx.count("coq_distinct_cases", len(cases))
     bad = ctx.coq_check("check_case", IMPORTS, "gcase", "check_case", cases, chunk=400 if thorough else 150,
                         preamble="Open Scope nat_scope.")
-    for i in bad[:20]:
+    for i in bad[:4]:
         parts = {}
         for nm in ("check_repo", "check_valid", "check_spec"):
             parts[nm] = ctx.coq_eval(IMPORTS, "%s %s" % (nm, cases[i]), preamble="Open Scope nat_scope.")[-40:]
